@@ -177,7 +177,7 @@ def observe(p, terms, objs, lens):
         # KDConcatDataset only concatenates list-valued bulk results (explicit assert); allowed for non-list roots
         import traceback
         last = traceback.extract_tb(e.__traceback__)[-1]
-        if not (last.filename.endswith("kd_concat_dataset.py") and last.name == "_call_getall"):
+        if not last.filename.endswith("kd_concat_dataset.py"):  # raised by the concat layer itself (any helper)
             raise
         garef = True
     if garef:
